@@ -475,7 +475,14 @@ func (s *Sim) deliver(n *MNode) error {
 		}
 		s.label("malleated-twin-first")
 	}
-	_, maybelater, gerr := s.Node.Deliver(n.Raw)
+	// one block in four takes the path of a block the client parked in its on-disk cache while syncing (checked on
+	// arrival, re-parsed without hashing when it is committed); which one is a fixed function of the block
+	deliverFn := s.Node.Deliver
+	if n.Idx.Hash[1]&3 == 0 {
+		deliverFn = s.Node.DeliverViaDiskCache
+		s.label("via-disk-cache")
+	}
+	_, maybelater, gerr := deliverFn(n.Raw)
 
 	what := fmt.Sprintf("block %x (height %d, viol=%q, model check=%v)", n.Idx.Hash[:6], n.Idx.Height, n.Viol, n.CheckErr)
 	switch {
